@@ -2,8 +2,15 @@
 """Regenerates MANIFEST.json from checks.json (+ manifest_meta.json for level texts / not_applicable)."""
 import json, os
 ROOT = os.path.dirname(os.path.abspath(__file__))
-cfg = json.load(open(os.path.join(ROOT, "checks.json")))
-meta = json.load(open(os.path.join(ROOT, "manifest_meta.json")))
+cfg = {}
+for name in sorted(os.listdir(os.path.join(ROOT, "checks"))):
+    if name.endswith(".json"):
+        c = json.load(open(os.path.join(ROOT, "checks", name)))
+        if c.get("claimed"):
+            cfg[name[:-5]] = c
+meta = {"checks": {k: v["manifest"] for k, v in cfg.items()},
+        "notes": "See DESIGN.md. Every check = P (Lean theorems, axiom audit) + K (model-vs-code correspondence) + O (spec-vs-code search for a failing input). known-findings.txt lists recorded defects and fix: commits.",
+        "not_applicable": {}}
 checks = []
 for pid in sorted(cfg):
     m = meta["checks"][pid]
